@@ -745,6 +745,11 @@ class PyvalColorizer:
             self._colorize_ast_call_generic(node, state)
             return
         
+        # bind_args() leaves the '**kwargs' aside, but they belong to the call.
+        if any(kw.arg is None for kw in node.keywords):
+            self._colorize_ast_call_generic(node, state)
+            return
+
         ast_pattern = args.arguments['pattern']
 
         # Cannot colorize regex
